@@ -204,6 +204,8 @@ def main_check(check_id: str, tier: str, replay: str | None = None) -> int:
     shards = [s for s in shards if s.get("interp", "3.12") in interps]
 
     default_timeout = getattr(mod, "SHARD_TIMEOUT", {"quick": 300, "thorough": 3600})[tier]
+    if tier == "thorough" and not os.environ.get("VERIF_BUDGET_SCALE"):
+        os.environ["VERIF_BUDGET_SCALE"] = "0.4"
     jobs = int(os.environ.get("VERIF_JOBS", "16"))
     statuses = []
     with concurrent.futures.ThreadPoolExecutor(max_workers=jobs) as pool:
@@ -329,6 +331,11 @@ def main_check(check_id: str, tier: str, replay: str | None = None) -> int:
         with open(tmp, "w") as f:
             json.dump(evidence, f, indent=1, default=repr)
         os.replace(tmp, os.path.join(VERIF, "evidence", check_id + ".json"))
+        if tier == "thorough":
+            # keep a copy: the canonical file is rewritten by the next quick run
+            os.makedirs(os.path.join(VERIF, "evidence", "thorough"), exist_ok=True)
+            shutil.copyfile(os.path.join(VERIF, "evidence", check_id + ".json"),
+                            os.path.join(VERIF, "evidence", "thorough", check_id + ".json"))
 
     print("%s tier=%s seed=%d shards=%d evaluations=%d distinct_nontrivial=%d wall=%.1fs" % (
         check_id, tier, seed, len(statuses), evaluations, len(distinct), wall))
